@@ -199,7 +199,7 @@ def build_problem(cfg, plan, clock, ctx):
     f = Fun("f_rosen" if rosen else "f_quad", dim, sign, out_kind=cfg.get("f_kind", "float"))
     df = Fun("df_rosen" if rosen else "df_quad", dim, sign)
     tf = tracked["f"] = Tracked("f", f, plan, clock, ctx, "f")
-    tdf = tracked["df"] = Tracked("df", df, {**plan, "nan": {}, "raise": {}}, clock, ctx, "df")
+    tdf = tracked["df"] = Tracked("df", df, {**plan, "nan": plan.get("nan_jac", {}), "raise": {}}, clock, ctx, "df")
     p.objective = MDOFunction(tf, "f", jac=tdf if cfg["user_jac"] else None)
     if cfg["maximize"]:
         p.minimize_objective = False
@@ -208,7 +208,7 @@ def build_problem(cfg, plan, clock, ctx):
         g = Fun("g2" if two else "g1", dim)
         dg = Fun("dg2" if two else "dg1", dim)
         tg = tracked["g"] = Tracked("g", g, plan, clock, ctx, "g")
-        tdg = tracked["dg"] = Tracked("dg", dg, {**plan, "nan": {}, "raise": {}}, clock, ctx, "dg")
+        tdg = tracked["dg"] = Tracked("dg", dg, {**plan, "nan": plan.get("nan_jac", {}), "raise": {}}, clock, ctx, "dg")
         # (optionally a "positive" constraint with an offset: the problem records its standard form -(g - value))
         p.add_constraint(MDOFunction(tg, "g", jac=tdg if cfg["user_jac"] else None), constraint_type="ineq",
                          positive=cfg.get("g_positive", False), value=cfg.get("g_value", 0.0))
@@ -260,7 +260,7 @@ def plan_from_tape(t, cfg, budget):
     faults_on = t.flag(0.6, "faults_on")
     plan["duration"] = t.pick([0.0, 0.001, 1.0, 3600.0], "call_duration")
     if faults_on:
-        k = t.weighted([5, 3, 2, 2], "fault_kind")
+        k = t.weighted([5, 3, 2, 2, 1 if (cfg["doe"] and cfg["user_jac"]) else 0], "fault_kind")
         j = 1 + t.choice(max(2, min(budget + 2, 12)), "fault_at")
         if k == 1:
             plan["nan"]["f"] = j
@@ -272,6 +272,9 @@ def plan_from_tape(t, cfg, budget):
             else:
                 plan["jump_at"] = j
                 plan["jump"] = t.pick([86400.0, -3600.0, 1e7], "clock_jump")
+        elif k == 4:
+            # a user Jacobian returns NaN at its j-th distinct point (DOE with eval_jac: the NaN is recorded, the DOE goes on)
+            plan["nan_jac"] = {("dg" if cfg["ineq"] and t.flag(0.5, "nan_in_dg") else "df"): j}
     return plan
 
 
@@ -378,7 +381,7 @@ def run_driver(ctx, focus):
         settings["use_database"] = not t.flag(0.05, "no_database")
         if t.flag(0.2, "max_time"):
             settings["max_time"] = t.pick([5.0, 0.5], "max_time_value")
-        if t.flag(0.3, "eval_jac") and cfg["user_jac"]:
+        if (t.flag(0.3, "eval_jac") or plan.get("nan_jac")) and cfg["user_jac"]:
             settings["eval_jac"] = True
     n_exec = 1 + t.weighted([6, 2, 1], "n_executions")
     reset = not t.flag(0.3, "no_counter_reset")
